@@ -469,10 +469,25 @@ def extract_kind(repo, lay, kind):
     k.gets = tabs["elem"]
     for nm, code, fi in k.gets:
         check_type(kind, nm, code, flat, fi)
-    m = re.search(r"mpt_property_match\(\s*pr->name\s*,\s*(-?\d+)\s*,\s*elem_name\s*,\s*pos\s*\)", get)
+    m = re.search(r"mpt_property_match\(\s*(pr->name|name)\s*,\s*(-?\d+)\s*,\s*elem_name\s*,\s*pos\s*\)", get)
     if not m:
         fail("%s: mpt_property_match call not found in the getter" % kind)
-    ml = int(m.group(1))
+    ml = int(m.group(2))
+    # names replaced by a listed name before the lookup (full comparison, case ignored)
+    k.get_alias = []
+    if m.group(1) == "name":
+        if not re.search(r"const\s+char\s*\*name\s*=\s*pr->name\s*;", get):
+            fail("%s: the looked-up name is not pr->name" % kind)
+        tab = re.search(r"static\s+const\s+char\s*\*\s*const\s+alias\[\]\[2\]\s*=\s*\{", get)
+        loop = re.search(r"for\s*\(i\s*=\s*0;\s*i\s*<\s*MPT_arrsize\(alias\);\s*i\+\+\)\s*\{\s*if\s*\(!strcasecmp\(name,\s*alias\[i\]\[0\]\)\)\s*\{\s*name\s*=\s*alias\[i\]\[1\];\s*break;\s*\}\s*\}", get)
+        if not tab or not loop or len(re.findall(r"(?<![>.\w])name\s*=[^=]", get)) != 2:
+            fail("%s: unsupported name replacement in the getter" % kind)
+        body = get[tab.end():match_brace(get, tab.end() - 1)]
+        for row in split_top(body):
+            r = re.fullmatch(r"\{\s*\"([^\"]*)\"\s*,\s*\"([^\"]*)\"\s*\}", row.strip())
+            if not r:
+                fail("%s: unsupported alias[] row %r" % (kind, row))
+            k.get_alias.append((r.group(1), r.group(2)))
     k.match_len = None if ml < 0 else ml
     # the name table handed to mpt_property_match must be elem[].name in order
     if not re.search(r"for\s*\(pos\s*=\s*0;\s*pos\s*<\s*\(int\)\s*MPT_arrsize\(elem\);\s*pos\+\+\)\s*\{\s*elem_name\[pos\]\s*=\s*elem\[pos\]\.name;\s*\}", get):
@@ -785,6 +800,7 @@ GRAPH_ALIGN = norm("""
 		const char *v; uint8_t n = 0; int i = 0;
 		if (!src || !(len = src->_vptr->convert(src, 'y', &gr->align))) { gr->align = def_graph.align; return 0; }
 		if (len > 0) { return 0; }
+		if (len == MPT_ERROR(BadValue)) { return len; }
 		if ((len = src->_vptr->convert(src, 's', &v)) < 0) { return len; }
 		if (!len || !v) { n = 0; }
 		else while (v[i]) {
@@ -804,6 +820,7 @@ GRAPH_CLIP = norm("""
 		const char *v; uint8_t n = 0;
 		if (!src || !(len = src->_vptr->convert(src, 'y', &gr->clip))) { gr->clip = def_graph.clip; return 0; }
 		if (len > 0) { return 0; }
+		if (len == MPT_ERROR(BadValue)) { return len; }
 		if ((len = src->_vptr->convert(src, 's', &v)) < 0) { return len; }
 		if (!len || !v) { gr->clip = def_graph.clip; return 0; }
 		while (*v) {
@@ -913,6 +930,7 @@ def generate(repo):
         L.append("  gets := [")
         L.append("    " + ",\n    ".join("⟨%s /- %s -/, %s, %d⟩" % (lean_str(n), n, lean_int(c), f) for n, c, f in k.gets) + "]")
         L.append("  matchLen := %s" % ("none" if k.match_len is None else "some %d" % k.match_len))
+        L.append("  getAlias := [%s]" % ", ".join("(%s /- %s -/, %s /- %s -/)" % (lean_str(a), a, lean_str(b), b) for a, b in k.get_alias))
         L.append("  sets := [")
         L.append("    " + ",\n    ".join("⟨[%s], %s⟩" % (", ".join("(%s /- %s -/, %s)" % (lean_str(n), n, "true" if ci else "false") for n, ci in names), act) for names, act in k.sets) + "]")
         L.append("  logAt := %s" % ("none" if not k.log_at else "some (%d, %d, %d)" % k.log_at))
